@@ -63,5 +63,18 @@ theorem dstate_ket0 (n : Nat) : dstate (Tab.ket0 n) = ⟨n, zeroKet n⟩ := by
 theorem dstate_tensor (a b : Tab) : dstate (Tab.tensor2 a b) = dTensor (dstate a) (dstate b) :=
   congrArg (DState.mk (a.n + b.n)) (rho_tensor a b)
 
+/-- `tensor(list_of_tables)` of clifford.py: the left fold of the two-factor step over the list -/
+def tensorL (t : Tab) (ts : List Tab) : Tab := ts.foldl Tab.tensor2 t
+
+/-- **`tensor` of a whole list is the iterated Kronecker product** (left to right, as the Python loop) -/
+theorem dstate_tensorL (t : Tab) (ts : List Tab) :
+    dstate (tensorL t ts) = (ts.map dstate).foldl dTensor (dstate t) := by
+  induction ts generalizing t with
+  | nil => rfl
+  | cons a rest ih =>
+    show dstate (tensorL (Tab.tensor2 t a) rest) = _
+    rw [ih, dstate_tensor]
+    rfl
+
 end Hilbert
 end Graphiq
